@@ -91,6 +91,9 @@ func Gen(r *vh.Rand, k Knobs) *Scenario {
 	if r.Chance(3, 10) {
 		s.Fn = r.Range(1, 3)
 	}
+	if r.Chance(1, 4) {
+		s.Od = r.Range(1, len(OutlierCodes)-1)
+	}
 	// requests
 	nr := r.Range(1, k.MaxReqs)
 	for i := 0; i < nr; i++ {
@@ -113,8 +116,8 @@ func Gen(r *vh.Rand, k Knobs) *Scenario {
 				if r.Chance(1, 3) {
 					a.Rt = 'c'
 				}
-			} else if r.Chance(1, 6) {
-				a.Rt = '5'
+			} else if r.Chance(1, 4) {
+				a.Rt = "5543"[r.Intn(4)]
 			}
 			if r.Intn(1000) < k.PanicPermille {
 				if r.Bool() {
